@@ -1087,6 +1087,76 @@ rule("D6.trim_to_string",
      "str::trim().to_string()")
 
 
+# ---- C16: the serde glue of src/scanindex.rs (impl Deserialize for ScanIndex, str_to_index).  serde's traits cannot be imported
+# into single-file Verus: the Deserializer is a unit-local trait with an uninterpreted "text handed to visit_str", the map
+# accessors generated by the function's local macros (expanded first by D7.expand_macros) are written out as matches / loops
+# over shims whose contracts are the std combinators' documented behaviour.
+rule("D9.serde_deserialize_sig",
+     "fn deserialize < D > ( deserializer : D )",
+     "fn deserialize < 'de , D > ( deserializer : D )",
+     "the trait's lifetime parameter declared on the function (the impl block of the unit is an inherent one)")
+rule("D9.deserialize_str_kv",
+     "deserializer . deserialize_str ( KeyValue ) ?",
+     "shim_deserialize_kv ( deserializer ) ?",
+     "Deserializer::deserialize_str(KeyValue): the deserializer's text through KeyValue::visit_str (proved in the unit), or its error")
+rule("D9.map_get_reqd",
+     "map . get ( $k:str ) . ok_or ( de :: Error :: missing_field ( $m:str ) ) ?",
+     "shim_get_reqd :: < D :: Error > ( & map , $k , $m ) ?",
+     "HashMap::get(key).ok_or(de::Error::missing_field(name))?")
+rule("D9.map_get_pkgpath",
+     "map . get ( $k:str ) . map ( | v | PkgPath :: new ( v . as_str ( ) ) ) . transpose ( ) . map_err ( de :: Error :: custom ) ?",
+     "( match shim_get ( & map , $k ) { None => None , Some ( v ) => match PkgPath :: new ( v ) { Ok ( __p ) => Some ( __p ) , Err ( __e ) => { return Err ( shim_de_custom ( __e ) ) ; } } } )",
+     "Option::map(F).transpose().map_err(G)? written out: None stays None, Some(v) is F(v) with its error converted by G and returned")
+rule("D9.map_get_string",
+     "map . get ( $k:str ) . map ( String :: from )",
+     "shim_get_string ( & map , $k )",
+     "HashMap<String,String>::get(key).map(String::from)")
+rule("D9.map_get_words_strings",
+     "map . get ( $k:str ) . map_or ( vec ! [ ] , | v | { v . split_whitespace ( ) . map ( String :: from ) . collect ( ) } )",
+     "( match shim_get ( & map , $k ) { None => Vec :: new ( ) , Some ( v ) => shim_words_strings ( v ) } )",
+     "Option::map_or(vec![], |v| v.split_whitespace().map(String::from).collect())")
+rule("D9.map_get_words_paths",
+     "map . get ( $k:str ) . map_or ( vec ! [ ] , | v | { v . split_whitespace ( ) . map ( PathBuf :: from ) . collect ( ) } )",
+     "( match shim_get ( & map , $k ) { None => Vec :: new ( ) , Some ( v ) => shim_words_paths ( v ) } )",
+     "Option::map_or(vec![], |v| v.split_whitespace().map(PathBuf::from).collect())")
+rule("D9.map_get_words_depends",
+     "map . get ( $k:str ) . map_or_else ( || Ok ( vec ! [ ] ) , | v | { v . split_whitespace ( ) . map ( Depend :: new ) . map ( | result | result . map_err ( de :: Error :: custom ) ) . collect ( ) } , ) ?",
+     "( match shim_get ( & map , $k ) { None => Vec :: new ( ) , Some ( v ) => { let __ws = shim_words ( v ) ; let mut __out = Vec :: new ( ) ; let mut __i : usize = 0 ; "
+     "while __i < __ws . len ( ) { match Depend :: new ( __ws [ __i ] ) { Ok ( __d ) => { __out . push ( __d ) ; } Err ( __e ) => { return Err ( shim_de_custom ( __e ) ) ; } } __i += 1 ; } __out } } )",
+     "Option::map_or_else(|| Ok(vec![]), |v| v.split_whitespace().map(F).map(|r| r.map_err(G)).collect::<Result<Vec<_>, _>>())? written out: "
+     "the items in order, the first failing F(item) converted by G and returned")
+rule("D9.str_deserializer_new",
+     "StrDeserializer :: < serde :: de :: value :: Error > :: new ( input )",
+     "shim_str_deserializer ( input )",
+     "serde::de::value::StrDeserializer::new(input): a Deserializer whose deserialize_str hands `input` to the visitor")
+rule("D9.deserialize_map_err_io",
+     "ScanIndex :: deserialize ( index ) . map_err ( | e | { std :: io :: Error :: new ( std :: io :: ErrorKind :: InvalidData , format ! ( \"Failed\u2423to\u2423parse:\u2423{}\" , e ) , ) } ) ?",
+     "( match ScanIndex :: deserialize ( index ) { Ok ( __v ) => __v , Err ( __e ) => { return Err ( shim_invalid_data ( __e ) ) ; } } )",
+     "Result::map_err(|e| io::Error::new(InvalidData, format!(..)))? written out")
+
+
+rule("D8.write_display_string",
+     "write ! ( f , \"{}\" , s )",
+     "shim_fmt_str ( f , s . as_str ( ) )",
+     "write!(f, \"{}\", s) for a String: Formatter::write_str of its text")
+rule("D8.write_display_i64",
+     "write ! ( f , \"{}\" , i )",
+     "shim_fmt_i64 ( f , i )",
+     "write!(f, \"{}\", i) for an i64: Display::fmt of the number")
+rule("D8.write_display_joined",
+     "write ! ( f , \"{}\" , s . join ( \"\\n\" ) )",
+     "shim_fmt_joined_nl ( f , s )",
+     "write!(f, \"{}\", v.join(\"\\n\")): the lines joined by newlines")
+rule("D8.write_dewey_error",
+     "write ! ( f , \"Pattern\u2423syntax\u2423error\u2423near\u2423position\u2423{}:\u2423{}\" , self . pos , self . msg )",
+     "shim_fmt_dewey_error ( f , self . pos , self . msg )",
+     "write!(f, \"Pattern syntax error near position {}: {}\", pos, msg)")
+rule("D8.formatter_write_str",
+     "formatter . write_str ( $l:str )",
+     "shim_fmt_str ( formatter , $l )",
+     "Formatter::write_str(literal)")
+
+
 def fold_string_to_loop(toks):
     """`let NAME = X . iter ( ) . fold ( String :: new ( ) , | mut ACC , B | { STMTS ACC } ) ;`  ->
     `let __fin = X ; let mut ACC = String :: new ( ) ; for B in __fin . iter ( ) { STMTS } let NAME = ACC ;`
